@@ -237,11 +237,22 @@ def judge_extract(case, acc, ctx):
         pfile = os.path.join(d, "payload.bin") if case["to_file"] and present else None
         rfile = None
         rbytes = None
-        if case["replace"]:
+        paths = case.get("paths", "distinct")
+        if case["replace"] is not None:
             rfile = os.path.join(d, "new.bin")
             rbytes = bytes.fromhex(case["replace"])
             with open(rfile, "wb") as fh:
                 fh.write(rbytes)
+            if paths == "swap-file" and pfile:
+                pfile = rfile  # swap through ONE file: it delivers the new payload and receives the old one
+        if pfile and pfile != rfile and paths != "distinct":
+            with open(pfile, "wb") as fh:
+                fh.write(b"stale payload file, longer than what will be written " * 40)
+        if paths == "in-place":
+            out = inp
+        elif paths != "distinct":
+            with open(out, "wb") as fh:
+                fh.write(sut.STALE_ENVELOPE)
         raised = None
         try:
             from suit_generator import cmd_payload_extract
@@ -252,7 +263,7 @@ def judge_extract(case, acc, ctx):
         except Exception as e:
             raised = e
         acc.case(nt_key=("extract", json.dumps(_shape(case["tree"])), name, bool(pfile), bool(rfile)) if len(names) >= 2 else None,
-                 classes=["extract", "present" if present else "absent", "to-file" if pfile else "no-file", "replace" if rfile else "remove"], sample=case if len(json.dumps(case)) < 1200 else None,
+                 classes=["extract", "present" if present else "absent", "to-file" if pfile else "no-file", "replace" if rfile else "remove", f"paths:{paths}"] + (["swap-through-one-file"] if pfile and pfile == rfile else []), sample=case if len(json.dumps(case)) < 1200 else None,
                  sample_key=f"extract/{bool(pfile)}/{bool(rfile)}")
         if raised is not None:
             raise Violation(f"payload_extract failed: {type(raised).__name__}: {str(raised)[:200]}", "output envelope", bucket="extract-failed")
@@ -329,7 +340,7 @@ def extract_s():
     from hypothesis import strategies as st
 
     return st.fixed_dictionaries({"tree": tree_s(1), "name": st.sampled_from(PL_NAMES + DEP_NAMES), "pick": st.integers(0, 10), "to_file": st.booleans(),
-                                  "replace": st.sampled_from([None, None, "", "beef", "00" * 50])})
+                                  "replace": st.sampled_from([None, None, "", "beef", "00" * 50]), "paths": st.sampled_from(["distinct", "distinct", "swap-file", "swap-file", "in-place", "stale-outputs"])})
 
 
 def plan(ctx):
@@ -361,7 +372,7 @@ def replay(ctx, check, case):
 
 def finalize(ctx, m, ev):
     c = m["counters"]
-    for n in ["moved-and-kept", "all-moved", "none-moved", "depth:3", "reject:duplicate", "reject:non-envelope-dependency", "route:cli", "signed", "extract", "replace", "to-file",
+    for n in ["moved-and-kept", "all-moved", "none-moved", "depth:3", "reject:duplicate", "reject:non-envelope-dependency", "route:cli", "signed", "extract", "replace", "to-file", "swap-through-one-file", "paths:in-place", "paths:stale-outputs",
               "omit:lookahead", "dep:alt"]:
         if not c.get(n):
             raise boot.HarnessError(f"interesting class {n} is empty")
